@@ -23,4 +23,11 @@ def ViewsAgree (objNames attrNames : List String) (c : ConceptRec) : Prop :=
   c.extent = c.extentI.map (fun g => objNames.getD g "") ∧
   c.intent = c.intentI.map (fun m => attrNames.getD m "")
 
+/-- the brute-force oracle enumerated over the smaller side of the table (`2^min(n,m)` candidate sets):
+    for a wide table `allConcepts t`; for a tall one the concepts of the transposed table, swapped back.
+    `Fca.C02.oracle_fast_exact` proves it lists exactly `allConcepts t`. -/
+def allConceptsFast (t : Table) : List (List Nat × List Nat) :=
+  if t.width ≤ t.height then allConcepts t
+  else (allConcepts (transpose t)).map fun p => (p.2, p.1)
+
 end Fca.Spec
